@@ -201,6 +201,19 @@ def run(ctx):
     ham = coroutine_of(prog, CLIENT + 'autoalloc::handle_autoalloc_message')
     fl2 = set(ham.call_blocks(STREAMER + 'flush_journal'))
     ctx.ob('R10.3', 'handle_autoalloc_message|flushes', len(fl2) >= 1, 'allocation-queue changes are flushed before they are acknowledged', ham.loc())
+    # per arm: each success response of a queue-changing request (the one that hands out a queue id included) is built
+    # after a flush (dominated by it) or cannot reach the return without one; `len(fl2) >= 1` alone would accept a
+    # handler that lost the flush of a single arm
+    MSG = 'hyperqueue::transfer::messages::'
+    rets = set(ham.returns())
+    for enum, variant in ((MSG + 'QueueCreateResponse', 'Created'), (MSG + 'AutoAllocResponse', 'QueueRemoved'),
+                          (MSG + 'AutoAllocResponse', 'QueuePaused'), (MSG + 'AutoAllocResponse', 'QueueResumed')):
+        sites = [(b, bi) for _, b, bi, _ in construct_sites(prog, enum, variant) if b.path == ham.path]
+        ctx.require(sites, f'R10.3: {variant} is not constructed in handle_autoalloc_message')
+        for b, bi in sites:
+            ok = any(ham.dominates(f, bi) for f in fl2) or not ham.exists_path([bi], rets, avoid=fl2)
+            ctx.ob('R10.3', f'handle_autoalloc_message|{variant}|flush before response', ok,
+                   f'{variant}: the acknowledgement of the queue change is built after flush_journal().await (or cannot be returned without it)', ham.loc(bi))
     fj = coroutine_of(prog, STREAMER + 'flush_journal')
     ctx.ob('R10.3', 'flush_journal|awaits the journal thread', bool(fj.yields()) and bool(fj.call_blocks(STREAMER + 'start_flush')), 'flush_journal awaits the acknowledgement of the journal thread', fj.loc())
 
